@@ -21,7 +21,7 @@ RULE = (
     "log after de-duplication, (2) row k of integrate equals the trace of the k-th requested (state, target) in the reference "
     "simulator R3 driven by the LOGGED inputs (column 0 initial state, sample k acts in step k+1), clamped states equal their "
     "samples, (3) the t_max run equals the run with explicitly padded/truncated stimuli, (4) data_stimulate/data_clamp twins "
-    "equal the stateful calls. Non-trivial: >=2 recordings requested out of index order, or >=2 stimuli on one compartment, or "
+    "equal the stateful calls, (5) runs in which the stimuli alternate between stimulate() and data_stimulate() in one integrate call equal the all-stateful run. Non-trivial: >=2 recordings requested out of index order, or >=2 stimuli on one compartment, or "
     "run length != stimulus length, or a synaptic recording with interleaved types; distinct = hash(structure, op list, t_max mode)."
 )
 ASSUMPTIONS = [
